@@ -374,6 +374,50 @@ def setHeight (hOld hNew : Rat) (conserve : Bool) (adjust : List Nat) (nd : List
      else some (hNew, adjustDensity (hOld / hNew) adjust nd))
   else some (hNew, nd)
 
+/-! ### the same height change component by component, with the component volume caches
+
+`Block.adjustDensity` reads block-level densities (`getNuclideNumberDensities`: volume-weighted over the
+components) and writes them back through `Composite.setNumberDensity` (every component holding the nuclide gets
+`val / (their share of the volume)`). Both read `c.getVolume()`, which answers from the component's cache when
+there is one. One listed nuclide at a time (a nuclide's update touches no other nuclide and no volume). -/
+
+/-- a component for ONE nuclide -/
+structure VComp where
+  area : Rat              -- cross-section (does not change with the height)
+  nd : Option Rat         -- density of the nuclide; `none` = the component does not hold it
+  cache : Option Rat      -- cached volume, if any
+  deriving Repr, DecidableEq
+
+/-- `c.getVolume()`: the cached value if there is one, else area × block height -/
+def vol (h : Rat) (c : VComp) : Rat := c.cache.getD (c.area * h)
+
+/-- `Block.clearCache()`: every component's cached volume is dropped -/
+def clearCache (cs : List VComp) : List VComp := cs.map (fun c => { c with cache := none })
+
+def totalVol (h : Rat) (cs : List VComp) : Rat := (cs.map (vol h)).sum
+
+/-- `getNuclideNumberDensities([nuc])`: Σ N_c V_c / Σ V_c -/
+def blockND (h : Rat) (cs : List VComp) : Rat :=
+  (cs.map (fun c => c.nd.getD 0 * vol h c)).sum / totalVol h cs
+
+/-- `Composite.setNumberDensity(nuc, val)`: the components holding the nuclide all get `val / activeVolumeFrac` -/
+def setBlockND (h : Rat) (cs : List VComp) (val : Rat) : List VComp :=
+  let frac := totalVol h (cs.filter (fun c => c.nd.isSome)) / totalVol h cs
+  cs.map (fun c => if c.nd.isSome then { c with nd := some (val / frac) } else c)
+
+/-- `adjustDensity(frac, [nuc])` for the one nuclide ("don't modify zeros") -/
+def adjustOne (h frac : Rat) (cs : List VComp) : List VComp :=
+  let d := blockND h cs
+  if d = 0 then cs else setBlockND h cs (d * frac + TRACE)
+
+/-- `Block.setHeight(hNew, conserveMass=True, adjustList=[nuc])`, `hOld ≠ hNew`: the height is set, the block's
+cache is CLEARED, and only then the densities are adjusted -/
+def setHeightOne (hOld hNew : Rat) (cs : List VComp) : List VComp :=
+  adjustOne hNew (hOld / hNew) (clearCache cs)
+
+/-- atoms of the nuclide in the block (per unit of the constant factors): Σ N_c · area_c · height -/
+def atomsOf (h : Rat) (cs : List VComp) : Rat := (cs.map (fun c => c.nd.getD 0 * c.area * h)).sum
+
 /-- a component as `setBlockMesh` sees it: FUEL flag?, fluid material?, its densities -/
 structure MComp where
   fuel : Bool
